@@ -49,7 +49,7 @@ pub fn numeric_value_keywords() {
 }
 
 #[kani::proof]
-#[kani::unwind(3)]
+#[kani::unwind(8)]
 pub fn numeric_value_delegates() {
     let p: [u8; 4] = kani::any();
     let k: u8 = kani::any();
@@ -86,6 +86,7 @@ fn any_value<T: kani::Arbitrary>() -> NumericValue<T> {
 macro_rules! finish_harness {
     ($name:ident, $t:ty, $eq:expr) => {
         #[kani::proof]
+#[kani::unwind(8)]
         pub fn $name() {
             let value: NumericValue<$t> = any_value();
             let max: $t = kani::any();
@@ -144,6 +145,7 @@ finish_harness!(finish_f32, f32, |a: f32, b: f32| a.to_bits() == b.to_bits());
 finish_harness!(finish_f64, f64, |a: f64, b: f64| a.to_bits() == b.to_bits());
 
 #[kani::proof]
+#[kani::unwind(8)]
 pub fn defaults_are_type_bounds() {
     assert!(u8::numeric_value_max() == u8::MAX && u8::numeric_value_min() == u8::MIN, "C17/NumericValueDefaults/u8");
     assert!(i32::numeric_value_max() == i32::MAX && i32::numeric_value_min() == i32::MIN, "C17/NumericValueDefaults/i32");
